@@ -45,7 +45,7 @@ PLAN = {
                 soft=["MISMATCH twd", "MISMATCH tpath", "MISMATCH marks"]),
 }
 
-EXTRA_CONC = {"C03": "absorb,buffers", "C10": "pending,readerr"}
+EXTRA_CONC = {"C03": "absorb,buffers", "C10": "pending,readerr", "C19": "react"}
 
 PROPS_FILES = {
     "C01": ["props/C01.v"], "C02": ["props/C02.v"], "C03": ["props/C03.v"], "C04": ["props/C04.v"], "C08": ["props/C08.v"],
@@ -250,7 +250,7 @@ def run_ino_property(run, quick_n=96, thorough_n=2400, steps=45):
         with Lock():
             okc, logc, cbin = build_harness("conc")
         if okc:
-            rcc, outc = conc.run_conc(cbin, EXTRA_CONC[pid], run.seed, run.tier, pid)
+            rcc, outc = conc.run_conc(cbin, EXTRA_CONC[pid], run.seed, run.tier, pid, owner=pid)
             cf, cs, _, cpanic = conc.parse(outc)
             conc_scens = len(cs)
             seen = set()
